@@ -670,6 +670,87 @@ def drop_identity_stores(fn):
     return fn
 
 
+def scalar_replace_records(ix, f, fn):
+    """a local bound once to `C()` with C a @dataclass of the package all of whose fields have defaults, and used only as `x.<field>` (its
+    methods have been read into the function by the inliner): the fields become locals `x_<field>` initialised to their defaults where the
+    object was created.  Exact as long as the object itself goes nowhere (no other use of the name)."""
+    recs = record_classes(ix)
+    if not recs:
+        return fn
+    for st_ in list(fn.body):
+        if not (isinstance(st_, ast.Assign) and len(st_.targets) == 1 and isinstance(st_.targets[0], ast.Name) and isinstance(st_.value, ast.Call) and isinstance(st_.value.func, ast.Name)
+                and not st_.value.args and not st_.value.keywords):
+            continue
+        x = st_.targets[0].id
+        q = ix.resolve_name(f.mod, st_.value.func.id)
+        if q not in recs or q not in ix.classes:
+            continue
+        cls = ix.classes[q]
+        if not any(_decorator_name(d) in ("dataclass", "dataclasses.dataclass") for d in cls.decorator_list):
+            continue
+        defaults = {}
+        for n in cls.body:
+            if isinstance(n, ast.AnnAssign) and isinstance(n.target, ast.Name) and n.value is not None:
+                v = n.value
+                if isinstance(v, ast.Constant):
+                    defaults[n.target.id] = v
+                elif isinstance(v, ast.Call) and u(v.func) in ("field", "dataclasses.field") and len(v.keywords) == 1 and v.keywords[0].arg == "default_factory" and u(v.keywords[0].value) in ("list", "dict", "set"):
+                    defaults[n.target.id] = {"list": ast.List(elts=[], ctx=ast.Load()), "dict": ast.Dict(keys=[], values=[]), "set": ast.Call(func=ast.Name(id="set", ctx=ast.Load()), args=[], keywords=[])}[u(v.keywords[0].value)]
+                elif isinstance(v, ast.Call) and u(v.func) in ("field", "dataclasses.field") and len(v.keywords) == 1 and v.keywords[0].arg == "default" and isinstance(v.keywords[0].value, ast.Constant):
+                    defaults[n.target.id] = v.keywords[0].value
+        if set(defaults) != set(recs[q]):
+            continue
+        uses = [n for n in ast.walk(fn) if isinstance(n, ast.Name) and n.id == x]
+        attrs = [n for n in ast.walk(fn) if isinstance(n, ast.Attribute) and isinstance(n.value, ast.Name) and n.value.id == x]
+        if len(uses) != len(attrs) + 1 or any(a.attr not in defaults for a in attrs):
+            continue
+        taken = {n.id for n in ast.walk(fn) if isinstance(n, ast.Name)}
+        new = {fld: ("%s_%s" % (x, fld) if "%s_%s" % (x, fld) not in taken else "_%s_%s" % (x, fld)) for fld in defaults}
+
+        class R(ast.NodeTransformer):
+            def visit_Attribute(self, node):
+                if isinstance(node.value, ast.Name) and node.value.id == x:
+                    return ast.copy_location(ast.Name(id=new[node.attr], ctx=node.ctx), node)
+                return self.generic_visit(node)
+        i = fn.body.index(st_)
+        inits = [ast.copy_location(ast.Assign(targets=[ast.Name(id=new[fld], ctx=ast.Store())], value=copy.deepcopy(defaults[fld])), st_) for fld in recs[q]]
+        rest = [R().visit(b_) for b_ in fn.body[i + 1:]]
+        fn.body = fn.body[:i] + inits + rest
+        ast.fix_missing_locations(fn)
+    return fn
+
+
+def canonical_locals(ix, f, fn):
+    """the locals of the array-declaration handler are given the names the rules speak of, by what they *are* (alpha-renaming, no capture):
+    `value` - the list handed to np.array(...) as the concrete entries; `parameters` - the list that receives (position, symbol) pairs;
+    `final_value` - the name stored into the variable table; `shape` - the tuple read from the shape child."""
+    if f.qual != "listener.BlackbirdListener.exitArrayvar":
+        return fn
+    roles = {}
+    for n in ast.walk(fn):
+        if isinstance(n, ast.Call) and u(n.func) in ("np.array", "np.asarray", "numpy.array") and n.args and isinstance(n.args[0], ast.Name) and any(k.arg == "dtype" for k in n.keywords):
+            roles.setdefault("value", set()).add(n.args[0].id)
+        if isinstance(n, ast.Call) and isinstance(n.func, ast.Attribute) and n.func.attr == "append" and isinstance(n.func.value, ast.Name) and len(n.args) == 1 \
+                and isinstance(n.args[0], ast.Tuple) and len(n.args[0].elts) == 2 and "_expression(" in u(n.args[0].elts[1]):
+            roles.setdefault("parameters", set()).add(n.func.value.id)
+        if isinstance(n, ast.Assign) and len(n.targets) == 1 and isinstance(n.targets[0], ast.Subscript) and u(n.targets[0].value) == "_VAR" and isinstance(n.value, ast.Name):
+            roles.setdefault("final_value", set()).add(n.value.id)
+        if isinstance(n, ast.Assign) and len(n.targets) == 1 and isinstance(n.targets[0], ast.Name) and "ctx.shape().getText()" in u(n.value):
+            roles.setdefault("shape", set()).add(n.targets[0].id)
+    names = {x.id for x in ast.walk(fn) if isinstance(x, ast.Name)} | {a.arg for a in fn.args.posonlyargs + fn.args.args}
+    ren = {}
+    for canon, got in roles.items():
+        if len(got) == 1:
+            cur = next(iter(got))
+            if cur != canon and canon not in names and cur not in ren:
+                ren[cur] = canon
+    if not ren or len(set(ren.values())) != len(ren):
+        return fn
+    fn = _Rename(ren, {}).visit(fn)
+    ast.fix_missing_locations(fn)
+    return fn
+
+
 def guard_form(fn):
     """`if c: A else: B` with A leaving the block on every path (return / raise / continue / break) -> `if c: A` followed by B: the
     guard-clause spelling is the canonical one (an inlined helper or an elif ladder of returns reads like a sequence of guards)."""
@@ -804,6 +885,25 @@ def unroll_const_loops(fn, consts, single=frozenset(), limit=64):
     return _map_blocks(fn, fblock)
 
 
+def _is_boolean_test(e):
+    """an expression that evaluates to True / False itself (so that `True and e` may be written `e`)"""
+    return isinstance(e, ast.Compare) or (isinstance(e, ast.UnaryOp) and isinstance(e.op, ast.Not)) or (isinstance(e, ast.Call) and u(e.func) in ("isinstance", "issubclass", "callable", "bool", "any", "all", "hasattr")) \
+        or (isinstance(e, ast.BoolOp) and all(_is_boolean_test(v) for v in e.values))
+
+
+def drop_dead_branches(fn):
+    """`if True: A else: B` -> A; `if False: A else: B` -> B (constant tests arise when a flag parameter of an inlined helper is a literal)"""
+    def fblock(stmts):
+        out = []
+        for s_ in stmts:
+            if isinstance(s_, ast.If) and isinstance(s_.test, ast.Constant) and isinstance(s_.test.value, bool):
+                out.extend(s_.body if s_.test.value else s_.orelse)
+            else:
+                out.append(s_)
+        return out or [ast.Pass()]
+    return _map_blocks(fn, fblock)
+
+
 class _Fold(ast.NodeTransformer):
     """constant folding that never changes meaning: getattr(x, "name") -> x.name; (lambda a: E)(v) -> E[a := v];
     f(*(a, b)) -> f(a, b); module-level string constants bound exactly once -> their literal"""
@@ -815,6 +915,31 @@ class _Fold(ast.NodeTransformer):
     def visit_Name(self, node):
         if isinstance(node.ctx, ast.Load) and node.id in self.strconsts:
             return ast.copy_location(ast.Constant(value=self.strconsts[node.id]), node)
+        return node
+
+    def visit_BoolOp(self, node):
+        self.generic_visit(node)
+        vals = []
+        for v in node.values:
+            if isinstance(v, ast.Constant) and isinstance(v.value, bool):
+                if isinstance(node.op, ast.And) and v.value is False and not vals:
+                    return ast.copy_location(ast.Constant(value=False), node)       # False and ... : nothing after it is evaluated
+                if isinstance(node.op, ast.Or) and v.value is True and not vals:
+                    return ast.copy_location(ast.Constant(value=True), node)
+                if (isinstance(node.op, ast.And) and v.value is True) or (isinstance(node.op, ast.Or) and v.value is False):
+                    if v is not node.values[-1]:
+                        continue                                                        # a neutral operand that is not the result
+            vals.append(v)
+        if len(vals) == 1 and len(vals) != len(node.values) and not (isinstance(vals[0], ast.Constant)):
+            return node if False else ast.copy_location(ast.BoolOp(op=node.op, values=vals + [ast.Constant(value=isinstance(node.op, ast.And))]), node) if False else vals[0] if _is_boolean_test(vals[0]) else node
+        if len(vals) >= 2 and len(vals) != len(node.values):
+            node.values = vals
+        return node
+
+    def visit_UnaryOp(self, node):
+        self.generic_visit(node)
+        if isinstance(node.op, ast.Not) and isinstance(node.operand, ast.Constant) and isinstance(node.operand.value, bool):
+            return ast.copy_location(ast.Constant(value=not node.operand.value), node)
         return node
 
     def visit_BinOp(self, node):
@@ -1140,6 +1265,18 @@ def expand_maps(ix, f, fn, keep):
                 s.value = ast.Name(id=acc, ctx=ast.Load())
                 out.append(s)
                 continue
+            # X.extend(<comprehension>) whose element calls a helper: the loop of appends (elements are produced and added one by one either way)
+            if isinstance(s, ast.Expr) and isinstance(s.value, ast.Call) and isinstance(s.value.func, ast.Attribute) and s.value.func.attr == "extend" and len(s.value.args) == 1 \
+                    and not s.value.keywords and isinstance(s.value.args[0], (ast.GeneratorExp, ast.ListComp)) and len(s.value.args[0].generators) == 1 \
+                    and not s.value.args[0].generators[0].is_async and isinstance(s.value.func.value, (ast.Name, ast.Attribute)) and helper_call(s.value.args[0].elt):
+                comp = s.value.args[0]
+                g = comp.generators[0]
+                put = ast.Expr(value=ast.Call(func=ast.Attribute(value=s.value.func.value, attr="append", ctx=ast.Load()), args=[comp.elt], keywords=[]))
+                body = [ast.copy_location(put, s)]
+                for c in reversed(g.ifs):
+                    body = [ast.copy_location(ast.If(test=c, body=body, orelse=[]), s)]
+                out.append(ast.copy_location(ast.For(target=g.target, iter=g.iter, body=body, orelse=[]), s))
+                continue
             # np.vectorize(H, otypes=[object])(A)
             if isinstance(v, ast.Call) and isinstance(v.func, ast.Call) and u(v.func.func) in ("np.vectorize", "numpy.vectorize") and len(v.args) == 1 and not v.keywords \
                     and isinstance(v.args[0], (ast.Name, ast.Attribute, ast.Subscript)) and len(v.func.args) == 1 and isinstance(v.func.args[0], (ast.Name, ast.Attribute)) \
@@ -1226,6 +1363,41 @@ def fold_records(ix, f, fn):
                 return ast.copy_location(dict(fv)[node.attr], node)
             return node
     fn = A().visit(fn)
+    # a local bound once to a record and used only field by field: the fields become locals of their own (`e = C([], [])` ... `e.rows.append(r)`
+    # -> `e_rows = []` ... `e_rows.append(r)`); exact, because the record object itself goes nowhere
+    def sra_block(stmts):
+        out = []
+        for st_ in stmts:
+            fv = fields_of(st_.value) if isinstance(st_, ast.Assign) and len(st_.targets) == 1 and isinstance(st_.targets[0], ast.Name) else None
+            if fv is not None and record_qual_(st_.value) not in ix.__dict__.get("_record_methods", {}):
+                x = st_.targets[0].id
+                stores = [n for n in ast.walk(fn) if isinstance(n, ast.Name) and n.id == x and isinstance(n.ctx, (ast.Store, ast.Del))]
+                loads = [n for n in ast.walk(fn) if isinstance(n, ast.Name) and n.id == x and isinstance(n.ctx, ast.Load)]
+                attrs = [n for n in ast.walk(fn) if isinstance(n, ast.Attribute) and isinstance(n.value, ast.Name) and n.value.id == x and isinstance(n.ctx, ast.Load) and n.attr in dict(fv)]
+                if len(stores) == 1 and loads and len(loads) == len(attrs):
+                    taken = {n.id for n in ast.walk(fn) if isinstance(n, ast.Name)}
+                    new = {fld: ("%s_%s" % (x, fld) if "%s_%s" % (x, fld) not in taken else "_%s_%s" % (x, fld)) for fld, _ in fv}
+                    sra[x] = new
+                    for fld, v in fv:
+                        out.append(ast.copy_location(ast.Assign(targets=[ast.Name(id=new[fld], ctx=ast.Store())], value=v), st_))
+                    continue
+            out.append(st_)
+        return out
+
+    def record_qual_(call):
+        if not isinstance(call, ast.Call) or not isinstance(call.func, ast.Name):
+            return None
+        return ix.resolve_name(f.mod, call.func.id) or "%s.%s" % (f.mod, call.func.id)
+    sra = {}
+    fn = _map_blocks(fn, sra_block)
+    if sra:
+        class SR(ast.NodeTransformer):
+            def visit_Attribute(self, node):
+                if isinstance(node.value, ast.Name) and node.value.id in sra and node.attr in sra[node.value.id] and isinstance(node.ctx, ast.Load):
+                    return ast.copy_location(ast.Name(id=sra[node.value.id][node.attr], ctx=ast.Load()), node)
+                return self.generic_visit(node)
+        fn = SR().visit(fn)
+        ast.fix_missing_locations(fn)
     # a local bound once, at the top level of the function, to a record built from names that are not rebound afterwards: its fields are those
     # names, and a call of one of its single-expression methods is that expression with the fields in place of self.<field>
     methods_of = ix.__dict__.get("_record_methods", {})
@@ -1454,6 +1626,7 @@ def fold_constants(fn, consts, single):
         if k in single and k not in local and isinstance(v, ast.Tuple) and v.elts and all(isinstance(e, (ast.Name, ast.Attribute)) for e in v.elts):
             classconsts[k] = v
     fn = _Fold(strconsts, classconsts).visit(fn)
+    fn = drop_dead_branches(fn)
     ast.fix_missing_locations(fn)
     return fn
 
@@ -1764,6 +1937,19 @@ class _ReplaceNode(ast.NodeTransformer):
         return self.generic_visit(node)
 
 
+def local_instance_class(ix, f, name):
+    """qual of the package class a local of f is an instance of: the local is bound exactly once, to a constructor call of that class,
+    or is a parameter that every call site in the package passes such a local for (helpers the object is handed down to)"""
+    node = getattr(f, "orig", None) or f.node
+    binds = [n for n in ast.walk(node) if isinstance(n, ast.Assign) and any(isinstance(t, ast.Name) and t.id == name for t in n.targets)]
+    stores = [n for n in ast.walk(node) if isinstance(n, ast.Name) and n.id == name and isinstance(n.ctx, (ast.Store, ast.Del))]
+    if len(binds) == 1 and len(stores) == 1 and isinstance(binds[0].value, ast.Call) and isinstance(binds[0].value.func, ast.Name):
+        q = ix.resolve_name(f.mod, binds[0].value.func.id)
+        if q in ix.classes:
+            return q
+    return None
+
+
 def _resolve_helper(ix, f, call, keep, stack=()):
     """the Func a call refers to, when it is a package function the rules do not know by name and that can be analysed in place"""
     g = None
@@ -1774,6 +1960,13 @@ def _resolve_helper(ix, f, call, keep, stack=()):
         g = ix.funcs.get("%s.%s" % (f.cls, call.func.attr))
     elif isinstance(call.func, ast.Attribute) and isinstance(call.func.value, ast.Name) and f.cls and call.func.value.id == f.cls.split(".")[-1]:
         g = ix.funcs.get("%s.%s" % (f.cls, call.func.attr))         # ClassName.static_helper(...)
+    elif isinstance(call.func, ast.Attribute) and isinstance(call.func.value, ast.Name) and call.func.value.id not in ("self", "cls"):
+        # a method of a local object of a class of the package: `arrays = _ArrayDeclarations()` ... `arrays.declare(v)`
+        cq = local_instance_class(ix, f, call.func.value.id)
+        if cq is not None:
+            g = ix.funcs.get("%s.%s" % (cq, call.func.attr))
+            if g is not None and any(_decorator_name(d) in ("staticmethod", "classmethod") for d in (getattr(g, "orig", None) or g.node).decorator_list):
+                g = None
     if g is None or g.qual == f.qual or g.qual in stack or g.qual in keep or g.name.startswith("__"):
         return None
     decos = [u(d) for d in g.node.decorator_list]
@@ -1891,6 +2084,13 @@ def inline_expressions(ix, f, fn, keep=frozenset(), depth=3):
             if b is None:
                 return node
             allp, mapping = b
+            if isinstance(node.func, ast.Attribute) and isinstance(node.func.value, ast.Name) and node.func.value.id not in ("self", "cls") and getattr(g, "cls", None) \
+                    and not (f.cls and node.func.value.id == f.cls.split(".")[-1]):
+                first = [a.arg for a in gnode.args.posonlyargs + gnode.args.args][:1]
+                if first and first[0] in ("self", "cls"):
+                    mapping = dict(mapping)
+                    mapping[first[0]] = node.func.value          # a method of a local object: self is that object
+                    allp = list(allp) + [first[0]]
             uses = {}
             for x in ast.walk(ret):
                 if isinstance(x, ast.Name):
@@ -1999,6 +2199,12 @@ def inline_function(ix, f, depth=2, _stack=(), keep=frozenset(), fn=None):
         if b is None:
             return None
         params, mapping = b
+        receiver = None
+        if isinstance(call.func, ast.Attribute) and isinstance(call.func.value, ast.Name) and call.func.value.id not in ("self", "cls") and getattr(g, "cls", None) \
+                and not (f.cls and call.func.value.id == f.cls.split(".")[-1]):
+            first = [a.arg for a in gnode.args.posonlyargs + gnode.args.args][:1]
+            if first and first[0] in ("self", "cls"):
+                receiver = (first[0], call.func.value)
         shared = set()
         for s in body:
             if isinstance(s, ast.Nonlocal):
@@ -2026,6 +2232,8 @@ def inline_function(ix, f, depth=2, _stack=(), keep=frozenset(), fn=None):
                 names[nm] = "_h%d_%s" % (counter[0], nm)
             elif nm not in caller_names:
                 origin[nm] = g.qual
+        if receiver is not None:
+            exprs[receiver[0]] = receiver[1]
         ren = _Rename(names, exprs)
         body = [ren.visit(copy.deepcopy(s)) for s in body]
         try:
@@ -2089,7 +2297,7 @@ def inline_function(ix, f, depth=2, _stack=(), keep=frozenset(), fn=None):
         from .ts import postorder
         out = []
         for s in stmts:
-            header = s.iter if isinstance(s, ast.For) else (s.test if isinstance(s, ast.If) else None)
+            header = s.iter if isinstance(s, ast.For) else None        # (tests that call a helper are read by the rules' model evaluation of helpers)
             if header is not None:
                 for call in _calls_outside_scopes(header):
                     g = resolve(call)
@@ -2215,8 +2423,8 @@ def propagate_aliases(fn, accessors=frozenset()):
             if isinstance(v, ast.Name) and stores.get(v.id, 0) == 0 and v.id not in params and v.id not in ("True", "False", "None"):
                 cands[n.targets[0].id] = (n, v)                       # another name for a module-level object
                 continue
-            if isinstance(v, ast.Name) and stores.get(v.id, 0) == 1 and v.id not in loop_targets and n in fn.body and n.targets[0].id.startswith("_r1"):
-                cands[n.targets[0].id] = (n, v)                       # a temporary of the inliner naming a local that is bound once: two names, one object
+            if isinstance(v, ast.Name) and stores.get(v.id, 0) == 1 and v.id not in loop_targets and v.id not in params and n in fn.body:
+                cands[n.targets[0].id] = (n, v)                       # a second name for a local that is bound once: two names, one object
                 continue
             if isinstance(v, ast.Subscript) and isinstance(v.value, ast.Name) and stores.get(v.value.id, 0) == 0 and v.value.id not in params and v.value.id.isupper() \
                     and isinstance(v.slice, ast.Name) and stable(v.slice.id):
@@ -2248,6 +2456,65 @@ def propagate_aliases(fn, accessors=frozenset()):
     from .index import number_nodes
     number_nodes(fn)
     fn = S().visit(fn)
+    # a second name for a local object that nothing reads any more is dropped
+    for name, (a, v) in cands.items():
+        if isinstance(v, ast.Name) and a in fn.body and not any(isinstance(n, ast.Name) and n.id == name and isinstance(n.ctx, ast.Load) for n in ast.walk(fn)):
+            fn.body.remove(a)
+    ast.fix_missing_locations(fn)
+    return fn
+
+
+def inline_deferred_lists(fn):
+    """lines collected in a local list and added to another list as a whole afterwards - `L = []` ... `L.append(x)` ... `T.extend(L)` - are
+    added to T where they are produced, when T's end is not written in between (insertions at positions that exist already, such as the
+    splice of hoisted declarations at the insertion point, do not depend on what follows them) and L is used for nothing else"""
+    changed = True
+    while changed:
+        changed = False
+        for st_ in list(fn.body):
+            if not (isinstance(st_, ast.Assign) and len(st_.targets) == 1 and isinstance(st_.targets[0], ast.Name) and isinstance(st_.value, ast.List) and not st_.value.elts):
+                continue
+            L = st_.targets[0].id
+            stores = [n for n in ast.walk(fn) if isinstance(n, ast.Name) and n.id == L and isinstance(n.ctx, (ast.Store, ast.Del))]
+            if len(stores) != 1:
+                continue
+            loads = [n for n in ast.walk(fn) if isinstance(n, ast.Name) and n.id == L and isinstance(n.ctx, ast.Load)]
+            puts = [n for n in ast.walk(fn) if isinstance(n, ast.Expr) and isinstance(n.value, ast.Call) and isinstance(n.value.func, ast.Attribute) and n.value.func.attr in ("append", "extend")
+                    and isinstance(n.value.func.value, ast.Name) and n.value.func.value.id == L and not any(isinstance(x, ast.Name) and x.id == L for a_ in n.value.args for x in ast.walk(a_))]
+            cons = [n for n in fn.body if isinstance(n, ast.Expr) and isinstance(n.value, ast.Call) and isinstance(n.value.func, ast.Attribute) and n.value.func.attr == "extend"
+                    and isinstance(n.value.func.value, ast.Name) and len(n.value.args) == 1 and isinstance(n.value.args[0], ast.Name) and n.value.args[0].id == L and not n.value.keywords]
+            if len(cons) != 1 or not puts or len(loads) != len(puts) + 1:
+                continue
+            T = cons[0].value.func.value.id
+            if T == L:
+                continue
+            i0, i1 = fn.body.index(st_), fn.body.index(cons[0])
+            if i1 < i0:
+                continue
+            between = fn.body[i0 + 1:i1]
+            if any(not any(p_ is x for b_ in between for x in ast.walk(b_)) for p_ in puts):
+                continue            # L is filled somewhere else as well
+            blocked = False
+            for b_ in between:
+                for n in ast.walk(b_):
+                    if isinstance(n, ast.Call) and isinstance(n.func, ast.Attribute) and isinstance(n.func.value, ast.Name) and n.func.value.id == T and n.func.attr in ("append", "extend", "pop", "clear", "remove", "sort", "reverse"):
+                        blocked = True
+                    if isinstance(n, ast.Call) and u(n.func) == "len" and n.args and u(n.args[0]) == T:
+                        blocked = True
+                    if isinstance(n, (ast.AugAssign,)) and u(n.target) == T:
+                        blocked = True
+                    if isinstance(n, ast.Name) and n.id == T and isinstance(n.ctx, (ast.Store, ast.Del)):
+                        blocked = True
+                    if isinstance(n, ast.Subscript) and u(n.value) == T and isinstance(n.slice, ast.UnaryOp):
+                        blocked = True        # T[-1]: reads the end
+            if blocked:
+                continue
+            for p_ in puts:
+                p_.value.func.value = ast.copy_location(ast.Name(id=T, ctx=ast.Load()), p_.value.func.value)
+            fn.body.remove(st_)
+            fn.body.remove(cons[0])
+            changed = True
+            break
     ast.fix_missing_locations(fn)
     return fn
 
@@ -2396,9 +2663,12 @@ def normal_form(ix, f, keep):
         lambda t: propagate_block_aliases(t, ix.accessor_names()),
         lambda t: propagate_templates(t),
         lambda t: eliminate_temporaries(t),
+        lambda t: scalar_replace_records(ix, f, t),
+        lambda t: inline_deferred_lists(t),
         lambda t: fold_library_pairs(t),
         lambda t: drop_identity_stores(t),
         lambda t: guard_form(t),
+        lambda t: canonical_locals(ix, f, t),
     ]
     prev = None
     disabled = set()
